@@ -10,15 +10,6 @@ namespace NV.C04
 
 open NV.Gen.C04
 
-/-- number of safe applies a run of the shape can make (an upper bound of the extra ticks) -/
-def Sh.safeWeight : Sh → Nat
-  | .safe b => b.safeWeight + 1
-  | .call _ b => b.safeWeight
-  | .catch_ b => b.safeWeight
-  | .cb k b => k * b.safeWeight
-  | .seq a b => a.safeWeight + b.safeWeight
-  | _ => 0
-
 /-- instructions executed plus instructions left -/
 def phi (s : St) : Int := (s.ticks : Int) + s.cost
 
